@@ -163,9 +163,17 @@ def build_pair(tree, masked, rnd, mask):
         return vin, vin
     used = set()
     din, dout = {}, {}
+    shared = []      # (abstract subtree, concrete argument, concrete expectation) of the nested mappings so far
     for (k_tok, sub), (k2, sub2) in zip(tree['ents'], masked['ents']):
         k = key_value(k_tok, rnd, used)
-        a, b = build_pair(sub, sub2, rnd, mask)
+        reuse = [t for t in shared if t[0] == sub] if sub['t'] == 'map' else []
+        if reuse and rnd.random() < 0.6:
+            # the SAME mapping object under two keys (a DAG, not a tree): each occurrence is masked like any other
+            a, b = reuse[0][1], reuse[0][2]
+        else:
+            a, b = build_pair(sub, sub2, rnd, mask)
+            if sub['t'] == 'map':
+                shared.append((sub, a, b))
         din[k] = a
         dout[k] = b
     arg = ROMapping(din) if tree['kind'] == 'mapping' else din
